@@ -237,7 +237,7 @@ RetExec ==
        <<T.lsnok, "C06-listeners-disagree">>,
        \* the same call on a fresh instance with NO listener registered: where no tie was broken the run is deterministic,
        \* so it must end the same way with the same facts
-       <<("facts0" \in DOMAIN T /\ "C03tie" \notin seen /\ ~cancelled) => (T.facts0 = T.facts /\ T.err0 = e), "C06-differs-without-listeners">>,
+       <<("facts0" \in DOMAIN T /\ "C03tie" \notin seen /\ ~cancelled) => (T.facts0 = T.facts /\ T.err0 = (IF e \in {"acterr", "evalerr"} THEN "ruleerr" ELSE e)), "C06-differs-without-listeners">>,
        <<T.facts = facts, IF cancelled THEN "C15-effects-after-cancel" ELSE IF pendErr # "" THEN "C14-effects-of-failed-rule"
                           ELSE IF complete THEN "C10-actions-around-complete" ELSE "C04-final-facts">>,
        <<pendErr # "" => (e = "acterr" /\ T.rule = pendErr), "C14-action-error-not-reported">>,
